@@ -10,6 +10,8 @@ import (
 	"strings"
 	"sync"
 	"time"
+	"verifharness/env"
+	"verifharness/vmesh"
 
 	"github.com/mycoria/mycoria/m"
 
@@ -404,6 +406,85 @@ func checkFrameCarrier(res *core.Result, b *frame.Builder, fwd, ret []m.SwitchLa
 	}
 }
 
+// meshTraversal: the forward block of a real route (learned from real announcements) is carried by a frame
+// through the real switches of a virtual mesh; at the destination the block in the frame must reverse to exactly
+// the route's return block, and a frame sent back over that reversed block must arrive at the origin.
+func meshTraversal(res *core.Result, r *rand.Rand, t *vmesh.Topology, labels vmesh.LabelMode) {
+	ids := make([]*m.Address, t.N)
+	for i := range ids {
+		ids[i] = env.NewIdentity(r, nil)
+	}
+	ms, err := vmesh.Build(r, t, ids, vmesh.BuildOpts{Labels: labels, Introduce: true})
+	if err != nil {
+		res.Inconcl("build: %v", err)
+		return
+	}
+	if err := ms.Converge(r, false); err != nil {
+		res.Inconcl("mesh did not converge (C09's business): %v", err)
+		return
+	}
+	desc := fmt.Sprintf("%s labels=%d", t.Canon(), labels)
+	send := func(from *vmesh.Node, dst netip.Addr, block []byte) (arrivedAt []int, arrived [][]byte, ok bool) {
+		blk := append([]byte(nil), block...)
+		first, err := m.NextRotateSwitchBlock(blk, 0)
+		if err != nil || first == 0 {
+			return nil, nil, false
+		}
+		f, err := from.Inst.BuilderV.NewFrameV1(from.ID.IP, dst, frame.SessionData, blk, core.RandBytes(r, 60), nil)
+		if err != nil {
+			return nil, nil, false
+		}
+		fd, _ := f.FrameDataWithMargins(0, 0)
+		key := vmesh.Key(fd)
+		ms.OnEscalate = func(node int, d []byte) {
+			if vmesh.Key(d) == key {
+				arrived = append(arrived, d)
+				arrivedAt = append(arrivedAt, node)
+			}
+		}
+		_ = from.Inst.SwitchV.ForwardByLabel(f, first)
+		ms.Drain(vmesh.FIFO, 500)
+		ms.OnEscalate = nil
+		return arrivedAt, arrived, true
+	}
+	for a := 0; a < t.N; a++ {
+		for b := 0; b < t.N; b++ {
+			if a == b {
+				continue
+			}
+			A, B := ms.Nodes[a], ms.Nodes[b]
+			e, _ := A.Inst.RouterV.Table().LookupNearest(B.ID.IP)
+			if e == nil || len(e.Path.Hops) < 2 || len(e.Path.ForwardBlock) == 0 {
+				continue
+			}
+			wit := map[string]any{"mesh": desc, "from": a, "to": b, "hops": len(e.Path.Hops), "forward_block": fmt.Sprintf("%x", e.Path.ForwardBlock), "return_block": fmt.Sprintf("%x", e.Path.ReturnBlock), "case_id": fmt.Sprintf("mesh|%s|%d>%d", desc, a, b)}
+			at, got, ok := send(A, B.ID.IP, e.Path.ForwardBlock)
+			if !ok {
+				continue
+			}
+			if len(at) != 1 || at[0] != b {
+				res.Violate("traversal-failed:mesh", fmt.Sprintf("%s: a frame carrying the forward block of the %d-hop route %d->%d was handed up at %v", desc, len(e.Path.Hops), a, b, at), wit)
+				return
+			}
+			sw := int(got[0][48])
+			blockAtDst := append([]byte(nil), got[0][49:49+sw]...)
+			m.TransformToReturnBlock(blockAtDst)
+			if !bytes.Equal(blockAtDst, pad(e.Path.ReturnBlock, sw)) {
+				res.Violate("traversal-failed:mesh-return-block", fmt.Sprintf("%s: after the real switches carried the forward block of the %d-hop route %d->%d, the block in the frame reverses to %x, the route's return block is %x", desc, len(e.Path.Hops), a, b, blockAtDst, e.Path.ReturnBlock), wit)
+				return
+			}
+			// and back over the reversed block
+			at2, _, ok2 := send(B, A.ID.IP, blockAtDst)
+			if ok2 && (len(at2) != 1 || at2[0] != a) {
+				res.Violate("traversal-failed:mesh-return-trip", fmt.Sprintf("%s: a frame sent back over the reversed block of route %d->%d was handed up at %v, not at the origin", desc, a, b, at2), wit)
+				return
+			}
+			res.Count("mesh_routes_traversed_and_reversed", 1)
+			res.Case(fmt.Sprintf("mesh|%s|%d|%d", desc, len(e.Path.Hops), len(e.Path.ForwardBlock)), true)
+		}
+	}
+}
+
 func parallel(n int, fn func(w int)) {
 	var wg sync.WaitGroup
 	for w := 0; w < n; w++ {
@@ -589,11 +670,16 @@ func run(c *core.Ctx) {
 			}
 		}
 	})
+	meshes := []*vmesh.Topology{vmesh.Line(2), vmesh.Line(3), vmesh.Line(5), vmesh.Ring(4), vmesh.Star(5), vmesh.Grid(3, 3)}
+	parallel(len(meshes)*3, func(w int) {
+		meshTraversal(res, core.RNG(fmt.Sprintf("c12/mesh/%d", w)), meshes[w%len(meshes)], vmesh.LabelMode(w/len(meshes)))
+	})
 	res.Sample(map[string]any{"hops": 2, "forward_labels": []int{16384, 0}, "return_labels": []int{0, 1}, "note": "two-hop path with a three-byte label (not covered by the repo tests)"})
 	res.Assume("a valid path has hop[0].ReturnLabel == 0 and hop[last].ForwardLabel == 0 and non-zero labels elsewhere (what announcements produce)")
 	res.Require(res.Counter("oversize_paths_refused") >= 100, "fewer than 100 oversize paths exercised")
 	res.Require(res.Counter("paths_traversed_both_ways") >= 10000, "fewer than 10000 traversals")
 	res.Require(res.Counter("paths_rebuilt_in_place") >= 1000, "fewer than 1000 in-place rebuilds")
+	res.Require(res.Counter("mesh_routes_traversed_and_reversed") >= 100, "fewer than 100 routes traversed through real switches")
 	res.Require(res.Counter("table_route_updates") >= 500, "fewer than 500 route updates through a table")
 	res.Require(res.Counter("blocks_carried_in_frames:exactly255") >= 1, "no 255-byte block was carried in a frame")
 }
